@@ -621,6 +621,7 @@ class Explorer(object):
         self.states = 0
         self.transitions = 0
         self.refused = 0
+        self.probed = 0
 
     def start(self, nj):
         c = self.H()
@@ -681,9 +682,13 @@ class Explorer(object):
         except Exception:
             return False
 
-    def bfs(self, nj, max_reg, max_jo, part=0, nparts=1, split_depth=3, legal_only=False, max_states=None):
+    def bfs(self, nj, max_reg, max_jo, part=0, nparts=1, split_depth=3, legal_only=False, max_states=None, probe=False):
+        """probe=True (with legal_only): only rule-conforming calls are expanded, but at every state every OTHER call of the
+        full alphabet is applied once to a clone and judged by the monitors (deep legal histories x every illegal call)"""
         root = self.start(nj)
-        seen = {(snap(root, log=False), root._vf_shadow.key())}
+        # the seen-set keeps 64-bit hashes of the (snapshot, shadow phase) keys: a collision can only make the explorer
+        # skip a state (less coverage), never report anything wrong
+        seen = {hash((snap(root, log=False), root._vf_shadow.key()))}
         frontier = [root]
         depth = 0
         while frontier:
@@ -691,11 +696,17 @@ class Explorer(object):
                 frontier = frontier[part::nparts]
             nxt = []
             for c in frontier:
-                for m, a in self.calls(c, nj, max_reg, max_jo, legal_only):
+                legal = self.calls(c, nj, max_reg, max_jo, legal_only)
+                if probe and legal_only:
+                    for m, a in self.calls(c, nj, max_reg, max_jo, False):
+                        if (m, a) not in legal:
+                            self.apply(clone(c), m, a)
+                            self.probed += 1
+                for m, a in legal:
                     d = clone(c)
                     if not self.apply(d, m, a):
                         continue
-                    k = (snap(d, log=False), d._vf_shadow.key())
+                    k = hash((snap(d, log=False), d._vf_shadow.key()))
                     if k in seen:
                         continue
                     seen.add(k)
@@ -739,6 +750,37 @@ class Explorer(object):
                         m, a = rnd.choice(ok)
             self.apply(c, m, a)
             if c.state in ('finished', 'drawn') and rnd.random() < 0.5:
+                break
+        self.states += 1
+        return c
+
+    def walk_probe(self, nj, maxlen=60, max_reg=4, max_jo=3):
+        """A random rule-conforming history (deep: several heights, eliminations at different heights, jump-offs) with
+        every OTHER call of the alphabet probed on a clone at every step."""
+        rnd = self.rnd
+        c = self.start(nj)
+        sh = c._vf_shadow
+        for step in range(maxlen):
+            legal = self.calls(c, nj, max_reg, max_jo, True)
+            for m, a in self.calls(c, nj, max_reg, max_jo, False):
+                if (m, a) not in legal:
+                    self.apply(clone(c), m, a)
+                    self.probed += 1
+            if not legal:
+                break
+            trials = [x for x in legal if x[0] != 'set_bar_height']
+            bars = [x for x in legal if x[0] == 'set_bar_height']
+            # keep jumping at a height most of the time; failures are the most frequent outcome
+            if trials and (not bars or rnd.random() < 0.8):
+                w = {'failed': 5, 'cleared': 3, 'passed': 1, 'retired': 0.5}
+                m, a = rnd.choices(trials, weights=[w[x[0]] for x in trials])[0]
+            else:
+                m, a = rnd.choice(bars)
+            self.apply(c, m, a)
+            if c.state in ('finished', 'drawn'):
+                for m, a in self.calls(c, nj, max_reg + 1, max_jo + 1, False):
+                    self.apply(clone(c), m, a)
+                    self.probed += 1
                 break
         self.states += 1
         return c
